@@ -85,19 +85,19 @@ ARCHIVE_FORMATS = ("zip", "tar", "7z")
 FORMATS = ADM_FORMATS + SHEET_FORMATS + HTML_FORMATS + MAIL_FORMATS + ARCHIVE_FORMATS
 
 # body features in canonical order; what a feature means per family is described in build_*
-BODY_ALL = ["text", "uni", "sur", "h", "tbl", "rag", "img", "imgx", "imge", "ul", "a", "types", "att", "u2", "notes", "hf", "hexesc"]
+BODY_ALL = ["text", "uni", "sur", "surl", "h", "tbl", "rag", "img", "imgx", "imge", "ul", "a", "types", "att", "u2", "notes", "hf", "hexesc"]
 VARIANTS = {"rtf": ["hexesc"]}      # writer variants that change how text (also property values) is encoded
 IMG_MODES = ("imgx", "imge")
-RICH_EXTRA = ("sur", "imgx", "imge", "hexesc")   # not part of the "rich" document (they damage it); each is added to it in a variant of its own
+RICH_EXTRA = ("sur", "surl", "imgx", "imge", "hexesc")   # not part of the "rich" document (they damage it); each is added to it in a variant of its own
 _PUA = "\ue000"                     # placeholder that is byte-patched into a lone high surrogate (UTF-16LE 3D D8) for "sur"
 
 
-def _patch_surrogate(data: bytes, before: str, after: str) -> bytes:
-    """the single UTF-16LE occurrence of before+U+E000+after gets U+D83D (a lone high surrogate) instead of U+E000"""
+def _patch_surrogate(data: bytes, before: str, after: str, unit: bytes = b"\x3d\xd8") -> bytes:
+    """the single UTF-16LE occurrence of before+U+E000+after gets U+D83D (a lone high surrogate; or `unit`) instead of U+E000"""
     old = (before + _PUA + after).encode("utf-16-le")
     if data.count(old) != 1:
         raise ValueError("surrogate placeholder not found exactly once")
-    return data.replace(old, before.encode("utf-16-le") + b"\x3d\xd8" + after.encode("utf-16-le"))
+    return data.replace(old, before.encode("utf-16-le") + unit + after.encode("utf-16-le"))
 # document properties each writer can store
 META_CAPS = {"docx": META_KEYS, "pptx": META_KEYS, "xlsx": META_KEYS, "odt": META_KEYS, "odp": META_KEYS, "ods": META_KEYS,
              "odg": META_KEYS, "odf": META_KEYS, "rtf": META_KEYS, "ppt": META_KEYS, "xls": META_KEYS,
@@ -170,12 +170,13 @@ def build_adm(fmt, body, meta, tk):
     for f in body:
         if f == "h" and "h" in caps:
             blocks.insert(0, ["h", 1, [["t", tk.new("H")]]]); used.append(f)
-        elif f == "sur" and fmt in ("rtf", "ppt"):
+        elif f in ("sur", "surl") and fmt in ("rtf", "ppt"):
+            # a lone high (sur) / lone LOW (surl: U+DE00, the second half of a pair on its own) surrogate
             a, b = tk.new("B"), tk.new("B")
             if fmt == "rtf":
-                blocks.append(_p(a + "\ud83d" + b))
+                blocks.append(_p(a + ("\ud83d" if f == "sur" else "\ude00") + b))
             else:
-                blocks.append(_p(a + _PUA + b)); sur = (a, b)
+                blocks.append(_p(a + _PUA + b)); sur = (a, b, b"\x3d\xd8" if f == "sur" else b"\x00\xde")
             used.append(f)
         elif f in IMG_MODES and f == mode and "img" not in body:
             img("k", 1); blocks.append(["img", "k"]); used.append(f)
@@ -215,7 +216,7 @@ def build_adm(fmt, body, meta, tk):
     elif fmt == "ppt":
         data = writer(doc, {k: v[0] for k, v in images.items()}, None)
         if sur:
-            data = _patch_surrogate(data, sur[0], sur[1])
+            data = _patch_surrogate(data, sur[0], sur[1], sur[2])
     elif fmt == "rtf" and "hexesc" in body:
         data = writer(doc, images, {"escape": "hex"}); used.append("hexesc")
     elif mode and fmt in ("docx", "pptx"):
